@@ -131,9 +131,11 @@ class MSlice(MNode):
         if i >= a and (i - a) % c == 0 and (b is None or i < b):
             self.emit(x, md)
         if b is not None and self.i >= b:
-            for u in self.ups:
+            for u in list(self.ups):
                 if self in u.children:
                     u.children.remove(self)
+                    if self.spec.get('_detach_both_sides'):
+                        self.ups.remove(u)      # C15: the edge is gone, seen from either end
 
 
 def _key(spec, x, default_ident=False):
